@@ -280,15 +280,18 @@ def verify_certificate(
         store.load_locations(cafile, capath)
 
     # verify certificate chain
-    store_ctx = crypto.X509StoreContext(
-        store,
-        crypto.X509.from_cryptography(certificate),
-        [crypto.X509.from_cryptography(cert) for cert in chain],
-    )
     try:
+        store_ctx = crypto.X509StoreContext(
+            store,
+            crypto.X509.from_cryptography(certificate),
+            [crypto.X509.from_cryptography(cert) for cert in chain],
+        )
         store_ctx.verify_certificate()
     except crypto.X509StoreContextError as exc:
         raise AlertBadCertificate(exc.args[0])
+    except crypto.Error as exc:
+        # e.g. a certificate whose signature algorithm parameters are malformed
+        raise AlertBadCertificate(str(exc))
 
 
 class CipherSuite(IntEnum):
